@@ -36,12 +36,14 @@ func findMatches(insts []bytecode.SearchInstruction, all bool, skip int, take in
 	for all || matchNumber < skip+take {
 		currentState := CreateState(filename, reader, fileOffset, lineNumber, columnNumber)
 		for currentState.status == INPROCESS {
+			// running off the end of the program is a successful match (an empty program matches at once)
+			if currentState.programCounter >= len(insts) {
+				currentState.SUCCESS()
+				break
+			}
 			inst := insts[currentState.programCounter]
 			currentState = matchInstruction(inst, currentState)
 			// fmt.Printf("PC: %d INST: %+v STATE: %+v\n", currentState.programCounter, inst, currentState)
-			if currentState.status == INPROCESS && currentState.programCounter >= len(insts) {
-				currentState.SUCCESS()
-			}
 		}
 
 		if currentState.status == SUCCESS && len(currentState.currentMatch) != 0 {
